@@ -237,14 +237,16 @@ fn run(op: &str, a: &[&str]) -> String {
             "f32" => same(hres(RBig::try_from(f32_of(a[1])), hq), hres(Relaxed::try_from(f32_of(a[1])), |v| hq(&v.clone().canonicalize()))),
             _ => same(hres(RBig::try_from(f64_of(a[1])), hq), hres(Relaxed::try_from(f64_of(a[1])), |v| hq(&v.clone().canonicalize()))),
         },
-        "r2u" => same(hres(UBig::try_from(rbig(a[0], a[1])), hu), hres(UBig::try_from(relaxed(a[0], a[1]).canonicalize()), hu)),
-        "r2i" => same(hres(IBig::try_from(rbig(a[0], a[1])), hi), hres(IBig::try_from(relaxed(a[0], a[1]).canonicalize()), hi)),
+        // the Relaxed form is converted AS STORED (only common factors of two removed): an integer-valued 6/3 must convert
+        "r2u" => same(hres(UBig::try_from(rbig(a[0], a[1])), hu), hres(UBig::try_from(relaxed(a[0], a[1])), hu)),
+        "r2i" => same(hres(IBig::try_from(rbig(a[0], a[1])), hi), hres(IBig::try_from(relaxed(a[0], a[1])), hi)),
         "r2p" => {
             let r = rbig(a[1], a[2]);
+            let x = relaxed(a[1], a[2]);
             if is_signed(a[0]) {
-                with_iprim!(a[0], |T| hres(T::try_from(r), |x| hi128(*x as i128)))
+                with_iprim!(a[0], |T| same(hres(T::try_from(r), |x| hi128(*x as i128)), hres(T::try_from(x), |x| hi128(*x as i128))))
             } else {
-                with_uprim!(a[0], |T| hres(T::try_from(r), |x| format!("{:x}", *x as u128)))
+                with_uprim!(a[0], |T| same(hres(T::try_from(r), |x| format!("{:x}", *x as u128)), hres(T::try_from(x), |x| format!("{:x}", *x as u128))))
             }
         }
         "i2r" => format!("ok {} | {}", hq(&RBig::from(ibig(a[0]))), hqr(&Relaxed::from(ibig(a[0])))),
